@@ -134,6 +134,7 @@ func Run(cfg hx.Config) error {
 		return
 	}()
 	replayKnown(r, ts)
+	replayRegressions(r, ts)
 	nfeeds := cfg.N(2, 10)
 	for ti := range ts {
 		t := &ts[ti]
@@ -418,5 +419,92 @@ func replayKnown(r *hx.Run, ts []target) {
 			}
 		}
 		r.Count(fmt.Sprintf("known-replay:%s:%v", t.name, found))
+	}
+}
+
+// replayRegressions applies, to a fixed feed of each target, the damage that
+// exposed a defect which has since been repaired in /repo; every one of them
+// must now be an error (never a panic, never a success with other content).
+func replayRegressions(r *hx.Run, ts []target) {
+	sub := func(b []byte, old, new string, nth int) []byte {
+		idx := -1
+		from := 0
+		for i := 0; i <= nth; i++ {
+			j := bytes.Index(b[from:], []byte(old))
+			if j < 0 {
+				return nil
+			}
+			idx = from + j
+			from = idx + len(old)
+		}
+		out := append([]byte(nil), b[:idx]...)
+		out = append(out, new...)
+		return append(out, b[idx+len(old):]...)
+	}
+	for ti := range ts {
+		t := &ts[ti]
+		rnd := hx.NewRand(0xC15 + 7)
+		plain, spool := t.gen(rnd, 3)
+		f := &feed{t: t, idx: -2, plain: plain, spool: spool}
+		f.intact = f.run(spool)
+		if !f.intact.ok() {
+			continue
+		}
+		type dm struct {
+			desc string
+			data []byte
+		}
+		var ds []dm
+		switch t.loop {
+		case "one-xml":
+			withDecl := spool
+			if !bytes.HasPrefix(spool, []byte("<?xml")) {
+				withDecl = append([]byte("<?xml version=\"1.0\" encoding=\"utf-8\"?>\n"), spool...)
+			}
+			for _, enc := range []string{"TSCII", "ISO-10646-UCS-4", "Adobe-Standard-Encoding"} {
+				for _, old := range []string{"utf-8", "UTF-8", "ASCII"} {
+					if d := sub(withDecl, "encoding=\""+old+"\"", "encoding=\""+enc+"\"", 0); d != nil {
+						ds = append(ds, dm{"unimplemented-charset-" + enc, d})
+					}
+				}
+			}
+			for n := 0; n < 3; n++ {
+				if d := sub(spool, "<object object_ref", "=object object_ref", n); d != nil {
+					ds = append(ds, dm{fmt.Sprintf("test-without-object-%d", n), d})
+				}
+			}
+		case "one-json-end":
+			for n := 0; n < 4; n++ {
+				if d := sub(spool, "},", "}}", n); d != nil {
+					ds = append(ds, dm{fmt.Sprintf("early-close-%d", n), d})
+				}
+				if d := sub(spool, "],", "]}", n); d != nil {
+					ds = append(ds, dm{fmt.Sprintf("early-close-array-%d", n), d})
+				}
+			}
+			if d := sub(spool, "}}.apk", "\"}.apk", 0); d != nil {
+				ds = append(ds, dm{"early-close-in-string", d})
+			}
+		case "lines":
+			for _, k := range []int{len(plain) / 3, len(plain) / 2, len(plain) - 2} {
+				ds = append(ds, dm{fmt.Sprintf("spool-of-plaintext-cut-in-record@%d", k), t.rewrap(plain[:k])})
+			}
+			for _, k := range []int{len(spool) / 3, len(spool) / 2, len(spool) - 1} {
+				ds = append(ds, dm{fmt.Sprintf("spool-cut@%d", k), spool[:k]})
+			}
+		case "records", "records-cvss":
+			for _, k := range []int{len(plain)/3 + 5, len(plain) - 3} {
+				ds = append(ds, dm{fmt.Sprintf("cut-in-record@%d", k), plain[:k]})
+			}
+		}
+		for _, d := range ds {
+			got := f.run(d.data)
+			r.Case(fmt.Sprintf("regression %s %s", t.name, d.desc), true)
+			cl := classify(f.intact, got)
+			r.Count("regression:" + t.name + ":" + cl)
+			if cl != clErr && cl != clEqual {
+				judge(r, f, "regression", "regression:"+d.desc+" damaged="+hx.Hex(d.data), d.data, true, got)
+			}
+		}
 	}
 }
